@@ -91,17 +91,24 @@ class SMGen(Gen):
 
                     _levels.append([l.name,pred,arg_names,l._weight])
             else:
-                # For now, implement weighting for a non-derived factor by duplicating levels
+                # For now, implement weighting for a non-derived factor by duplicating levels;
+                # the minimum-trials scale goes to one non-derived factor of the crossing
+                scale = 1
+                if scale_one > 1 and f in crossing:
+                    scale = scale_one
+                    scale_one = 1
                 for l in levels:
-                    for i in range(scale_one * l._weight):
+                    for i in range(scale * l._weight):
                         _levels.append(l.name)
-                scale_one = 1
 
             if d_type==None:
                 primary.append([name,_levels])
             else:
                 derived.append([name,_levels,d_type])
 
+
+        if scale_one > 1:
+            _cexit("MinimumTrials with a crossing of derived factors only is not supported by SMGen.")
 
         for fp in primary:
             p_dc[fp[0]]=_Factor(fp[0],fp[1])
